@@ -187,7 +187,8 @@ PROPS = {
     },
     'C10': {
         'props_file': 'props/C10.v',
-        'domains': [{'name': 'loc-lifecycle', 'quick': 400, 'thorough': 20000, 'thorough_shards': 10}],
+        'domains': [{'name': 'loc-lifecycle', 'quick': 400, 'thorough': 20000, 'thorough_shards': 10},
+                    {'name': 'loc-expiry', 'quick': 48, 'thorough': 750, 'thorough_shards': 5, 'timeout': 3000}],
         'spec_ops': ['event', 'size', 'addfact', 'addrule', 'remfact', 'remrule', 'getfact', 'getrule', 'enablerule', 'clear', 'setparents', 'getparents', 'search'],
         'corr': 'corr.loc (CorrLoc.check_loc) on the lifecycle profile; judges: dispatch against the index-free specification, and "every operation on a disabled location reports an error"',
         'rule': 'loc-lifecycle: histories of 20-45 ops interleaving AddRule / overwrite / RemRule / EnableRule(true|false) / reload / location !enabled toggles with events, both state kinds, a parent in 1 of 4 cases; '
@@ -239,7 +240,7 @@ PROPS = {
     'C15': {
         'props_file': 'props/C15.v',
         'domains': [{'name': 'loc-cronhooks', 'quick': 400, 'thorough': 20000, 'thorough_shards': 10},
-                    {'name': 'cron-sys', 'quick': 72, 'thorough': 1500, 'thorough_shards': 10}],
+                    {'name': 'cron-sys', 'ok_is_spec': True, 'quick': 72, 'thorough': 1500, 'thorough_shards': 10}],
         'spec_ops': ['addfact', 'addrule', 'remfact', 'remrule', 'enablerule', 'clear', 'reload', 'process', 'setparents', 'scheduled-rule-runs-once-in-its-location'],
         'corr': 'corr.cronsys (CorrCronSys.check_cronsys: one sys.System with the real built-in cron, 2-3 locations sharing rule ids, one-shot schedules of 200/400 ms added/removed/replaced before they are due; runs counted per location) and corr.loc (CorrLoc.check_loc) on the cronhooks profile: a recording cron.Cronner installed with cron.AddHooks on every state; per op the calls it received are compared with CronHooks.calls_* and the registry judge (registry = stored scheduled rules) runs after every op',
         'rule': 'loc-cronhooks: histories of 20-45 ops on 1-2 locations (either state kind, persistent or ephemeral recording cron): AddRule with a schedule ("+1h", cron expressions, "!RFC3339") in 2 of 3 rule adds, '
